@@ -55,7 +55,27 @@ class _Interp(IndexInterp):
             return list(v.items)
         return super()._iterate(v, node)
 
+    def _note_keys(self, opt, container):
+        """the option is looked up in a table / tested for membership: the string keys are the literals the code dispatches on"""
+        if isinstance(opt, OptStr) and opt.seen is not None and isinstance(container, (dict, list, tuple, set, frozenset)) and not is_token(container):
+            opt.seen.update(str(k0) for k0 in container if isinstance(k0, str))
+
     def ev(self, e):
+        if isinstance(e, ast.Subscript):
+            try:
+                self._note_keys(self.ev(e.slice), self.ev(e.value))
+            except AnalysisError:
+                pass
+        if isinstance(e, ast.Call) and isinstance(e.func, ast.Attribute) and e.func.attr in ("get", "pop", "__getitem__", "__contains__", "index", "count") and e.args:
+            try:
+                self._note_keys(self.ev(e.args[0]), self.ev(e.func.value))
+            except AnalysisError:
+                pass
+        if isinstance(e, ast.Compare) and len(e.ops) == 1 and isinstance(e.ops[0], (ast.In, ast.NotIn)):
+            try:
+                self._note_keys(self.ev(e.left), self.ev(e.comparators[0]))
+            except AnalysisError:
+                pass
         if isinstance(e, ast.Compare) and len(e.ops) == 1 and isinstance(e.ops[0], (ast.LtE, ast.GtE, ast.Lt, ast.Gt, ast.Eq)):
             a, b = self.ev(e.left), self.ev(e.comparators[0])
             if isinstance(a, VecObj) or isinstance(b, VecObj):
